@@ -87,6 +87,8 @@ var userDirectives = []string{
 	"// gomacro:SQL ADD UNIQUE(Name, Role)",
 	"// gomacro:SQL ADD CHECK(Role = #[Role.Admin] OR Name <> 'x')",
 	"// gomacro:SQL ADD CHECK(Mood <> #[Mood.Sad])",
+	"// gomacro:SQL ADD CHECK(Mood <> #[Mood.Named] OR Name = 'x')",
+	"// gomacro:QUERY NameUsers UPDATE User SET Mood = #[Mood.Named] WHERE Mood = $m$",
 	"// gomacro:SQL ADD CHECK(Name <> 'User' AND Name <> 'IdUser' AND UserName <> Name)",
 	"// gomacro:SQL ADD CONSTRAINT User_name CHECK (Name <> '')",
 	"// gomacro:SQL CREATE INDEX idx_name ON User (Name)",
@@ -152,7 +154,7 @@ func TablesWith(c explore.Chooser, defaultCol string) *prog.Program {
 	var b, ext strings.Builder
 	b.WriteString("type IdUser int64\n\ntype UserId int64\n\ntype IdTeam int64\n\ntype TeamId int64\n\ntype IdGhost int64\n\n")
 	b.WriteString("type Role uint8\n\nconst (\n\tAdmin Role = iota // administrator\n\tMember\n\tguest\n)\n\n")
-	b.WriteString("type Mood string\n\nconst (\n\tHappy Mood = \"happy\"\n\tSad   Mood = \"sa d\"\n)\n\n")
+	b.WriteString("type Mood string\n\nconst (\n\tHappy Mood = \"happy\"\n\tSad   Mood = \"sa d\"\n\tNamed Mood = \"User\" // a value spelled like a table struct\n)\n\n")
 	b.WriteString(col.declB)
 	b.WriteString("\n")
 	ext.WriteString("type Pos struct {\n\tLat, Lng int32\n}\n\ntype Level int\n\nconst (\n\tLow Level = iota + 1\n\tHigh\n)\n\ntype IdRemote int64\n")
